@@ -7,7 +7,7 @@ from ..model import AnalysisError
 from ..lib import (FV, decode_new, decode_call, phi_members, is_sym, is_const, is_str, strip_stores, stores_of, tuple_consts,
                    find_assign, find_assigns, simple_assigns, local_term)
 from ..lib import (reached_iff, reached_implies, implies_reached, reached_iff_any, path_term, cond_equiv, cond_implies,  # noqa: F401
-                   else_stmts, branch_stmts, context_literals)
+                   else_stmts, branch_stmts, context_literals, gated_values, value_iff, full_term)
 from ..cfg import always_raises, walk_stmts
 from . import common as cm
 from . import geom
@@ -388,11 +388,9 @@ def d5_field_diff(chk, repo):
     chk.ob("field.Field.diff::periodic-padding", okw, "C04.D5",
            f"working field is {v.show(W)[:160]}; expected self, or self.pad({{direction: (1, 1)}}, mode='wrap') in a periodic direction",
            v.f, outer)
-    okc = False
-    for st in v.stmts():
-        if isinstance(st, ast.If) and st.body and isinstance(st.body[0], ast.Assign) and \
-                v.eq(v.term(st.body[0].value, at=st.body[0]), padded):
-            okc = v.eq(v.ev.term(st.test, at=st), v.spec("direction in self.mesh.bc"))
+    gv = gated_values(v, wf[1], outer)
+    okc = bool(gv) and value_iff(v, gv, lambda t: v.eq(t, padded), v.spec("direction in self.mesh.bc"),
+                                   assume=full_term(v, outer))
     chk.ob("field.Field.diff::periodic-condition", okc, "C04.D5", "padding must be applied exactly when direction in self.mesh.bc", v.f)
     env = {"W": W, "d": v.spec("self.mesh.region._dim2index(direction)")}
     it = v.term(outer.iter, at=outer)
